@@ -29,6 +29,12 @@ macro_rules! vcover {
         }
     };
 }
+/// Straight-line repetition of a block (keeps harness-internal loops out of the unwinding bound).
+macro_rules! unroll {
+    ($k:ident in [$($v:literal),*] $body:block) => {
+        $( { let $k: usize = $v; $body } )*
+    };
+}
 /// Declares harnesses: a `#[kani::proof]` per entry under Kani, and a registry entry for the native
 /// replay driver.
 macro_rules! harnesses {
